@@ -5,7 +5,9 @@ ID = "C01"
 LEAN_MODULES = ["Gv.Props.C01"]
 REQUIRED_THEOREMS = ["Gv.Props.C01." + n for n in [
     "step_inv", "run_inv", "inv_of_empty_bag", "inv_of_empty_align", "lookup_paths_agree", "idByName_spec",
-    "byName_found_iff", "add_wrong_length_rejected", "add_wrong_length_error_of_new_name"]]
+    "byName_found_iff", "add_wrong_length_rejected", "add_wrong_length_error_of_new_name",
+    "step_rect", "run_rect", "rect_of_empty_align", "rows_have_reported_length", "translate_three_frames_not_rect",
+    "step_refines", "run_refines", "good_of_empty_bag", "good_of_empty_align", "obs_byName", "obs_idByName", "obs_length"]]
 LEVEL_TEXT = ("Lean theorems: the implementation-shaped container model (ordered rows with pointer ids + separate name index, "
               "cached alignment length) keeps its representation invariant under every modelled operation and, for histories "
               "that keep names distinct, refines the plain list-of-(name,sequence) reference model, by induction over "
